@@ -131,6 +131,11 @@ func (e *eCodecFF) FromJSONRPCError(j jsonrpc.JSONRPCError) error {
 	return errors.New("cannot convert back")
 }
 
+// eWrapInner is registered, but the handler returns it wrapped (fmt.Errorf("...%w")): the dynamic type of what it returns is not.
+type eWrapInner struct{ Msg string }
+
+func (e *eWrapInner) Error() string { return e.Msg }
+
 type c11Class struct {
 	idx   int
 	reg   func(es *jsonrpc.Errors, code jsonrpc.ErrorCode)
@@ -153,6 +158,8 @@ var c11Classes = map[string]c11Class{
 	"codecvalfailfrom": {idx: 12, reg: func(es *jsonrpc.Errors, c jsonrpc.ErrorCode) { es.Register(c, new(eCodecVF)) }, mk: func(m string, n int) error { return eCodecVF{m} }},
 	"xmarshvalfailun": {idx: 13, reg: func(es *jsonrpc.Errors, c jsonrpc.ErrorCode) { es.Register(c, new(*eMarsh)) },
 		creg: func(es *jsonrpc.Errors, c jsonrpc.ErrorCode) { es.Register(c, new(eXVal)) }, mk: func(m string, n int) error { return &eMarsh{m, n} }},
+	"wrapreg": {idx: 14, reg: func(es *jsonrpc.Errors, c jsonrpc.ErrorCode) { es.Register(c, new(*eWrapInner)) },
+		mk: func(m string, n int) error { return fmt.Errorf("while handling %d: %w", n, &eWrapInner{m}) }},
 	"marshfailm": {idx: 10, reg: func(es *jsonrpc.Errors, c jsonrpc.ErrorCode) { es.Register(c, new(*eMarshFM)) }, mk: func(m string, n int) error { return &eMarshFM{m} }},
 }
 
@@ -297,6 +304,9 @@ func c11Row(rng *rand.Rand, row map[string]interface{}) (obs map[string]interfac
 	if k := c11Classes[cls].kcode; k != 0 && cls != "codecfailto" {
 		wantCode = jsonrpc.ErrorCode(k)
 	}
+	if cls == "wrapreg" {
+		wantCode = 1 // the wrapper's own type is in nobody's table
+	}
 	switch e := got.(type) {
 	case *jsonrpc.JSONRPCError:
 		obs["etype"] = "generic"
@@ -332,7 +342,7 @@ func c11Row(rng *rand.Rand, row map[string]interface{}) (obs map[string]interfac
 		obs["content"] = map[bool]string{true: "eq", false: "differs"}[e.Msg == o.Msg && e.Extra == o.Extra]
 	case *eCodecFT, *eCodecFF, *eMarshFU:
 		obs["etype"], obs["form"] = "registered", "ptr"
-	case *eMarshFM:
+	case *eMarshFM, *eWrapInner:
 		obs["etype"], obs["form"] = "registered", "ptr"
 	default:
 		obs["etype"] = fmt.Sprintf("other:%T", got)
